@@ -2,14 +2,15 @@
    through the extracted model of chainService.Add, and the extracted declarative oracles applied to the
    IMPLEMENTATION's observed answers.
 
-   VERIF_C04_FIXED=1 switches the model of GetHeaderAncestorsByHash to the repaired variant
-   (Query.ancestors_fixed; build/proposed-fixes/C04-1.diff) - use together with VERIF_REPO=<patched tree>. *)
+   The model of GetHeaderAncestorsByHash is the code since the fix ed2f6a2 (Query.ancestors = ancestors_gen true).
+   VERIF_C04_FIXED=0 switches to the model of the code BEFORE that fix (Query.ancestors_before_fix) - only useful
+   together with VERIF_REPO=<tree without ed2f6a2>. *)
 open Vutil
 open Vchain
 module L = Stdlib.List
 module S = Stdlib.String
 
-let fixed = (try Sys.getenv "VERIF_C04_FIXED" with Not_found -> "") = "1"
+let fixed = (try Sys.getenv "VERIF_C04_FIXED" with Not_found -> "") <> "0"
 
 (* ---------- input ---------- *)
 let is_query t = t <> "" && t.[0] >= 'A' && t.[0] <= 'Z'
@@ -102,7 +103,7 @@ let model input =
 (* ---------- spec oracle on the implementation's answers ---------- *)
 (* classes of departures that are documented findings; used ONLY to order the report so that an
    undocumented failure in the same batch is never hidden behind a documented one *)
-let documented = ["ancestors-equal-height-empty"; "ancestors-orphan-late-parent"; "common-ancestor-orphan-late-parent"]
+let documented = ["ancestors-orphan-late-parent"; "common-ancestor-orphan-late-parent"]
 
 let status obs = match split_on ' ' obs with c :: _ -> (try int_of_string c with _ -> -1) | [] -> -1
 let is_4xx obs = let c = status obs in c >= 400 && c < 500
